@@ -21,7 +21,7 @@
    model); the two plain accesses are additionally recorded in [plain] (newest first) for
    the race-freedom statement.  The value stored by StoreUint32 and the constant e.done is
    compared with come from Gen.ParConsts (regenerated from the source).  The user function
-   is data: f_k() calls Do(d, f_d) for every d in [deps k], in order (nested Do on OTHER
+   is data ([fval k] = None models an f that returns nil): f_k() calls Do(d, f_d) for every d in [deps k], in order (nested Do on OTHER
    keys, as goproxytest's zipCache -> archiveCache does; different Cache objects are just
    disjoint key sets), then returns [fval k]; calling it, each nested call and its return are
    separate steps, so other threads interleave with a running f.  A thread therefore has a
@@ -40,7 +40,7 @@ Inductive call := CDo (k : key) | CGet (k : key).
 Inductive cpc :=
 | Idle
 | DLoad (k : key) | DLoadOrStore (k : key) | DLoad1 (k : key) | DLock (k : key) | DLoad2 (k : key)
-| DCall (k : key) | DInF (k : key) (j : nat) | DWrite (k : key) (v : value) | DStore (k : key)
+| DCall (k : key) | DInF (k : key) (j : nat) | DWrite (k : key) (v : option value) | DStore (k : key)
 | DUnlock (k : key) | DRead (k : key)
 | GLoad (k : key) | GLoad1 (k : key) | GRead (k : key).
 
@@ -107,7 +107,7 @@ Definition do_return (th : thr) (k : key) (v : option value) : thr :=
   end.
 
 Section Cache.
-Variable fval : key -> value.       (* the value f_k() returns *)
+Variable fval : key -> option value. (* what f_k() returns; None = the nil interface value *)
 Variable deps : key -> list key.    (* the keys f_k() calls Do on, in order, before returning *)
 
 (* one step of thread t; None = t has no step (not a thread, finished, or blocked in Lock) *)
@@ -136,7 +136,7 @@ Definition cstep (s : cstate) (t : thread) : option cstate :=
               Some (mkC (set_nth t (goto th (DWrite k (fval k))) (thrs s)) (upd k (inc_fends (e k)) e) (plain s))
           end
       | DWrite k v =>
-          Some (mkC (set_nth t (goto th (DStore k)) (thrs s)) (upd k (set_result (Some v) (e k)) e)
+          Some (mkC (set_nth t (goto th (DStore k)) (thrs s)) (upd k (set_result v (e k)) e)
                     ((t, k, true) :: plain s))
       | DStore k =>
           Some (mkC (set_nth t (goto th (DUnlock k)) (thrs s)) (upd k (set_done cache_done_value (e k)) e) (plain s))
